@@ -104,6 +104,9 @@ def feasible_items(tier):
     # one component with two sequential facility tasks whose workplaces differ (every needed facility exists and is free: feasible)
     for sp in F.sequential_facility_specs():
         out.append((sp, {"rule": "TSLACK", "max_time": F.seq_bound(sp) + 4}))
+    # nested products whose parts are worked first and whose room is needed again afterwards (every needed machine, worker and room becomes free: feasible)
+    for sp in [x for x in F.nested_running_specs() if "two-parts-then-block" in x["label"] or "hull-leaves" in x["label"]] + [x for x in F.nested_order_specs() if "part-first" in x["label"]]:
+        out.append((sp, {"rule": "TSLACK", "max_time": F.seq_bound(sp) + 6}))
     # automatic tasks bound to a component (workplace without space limit): feasible without any free worker
     for sp in F.auto_placement_specs():
         for aa in (False, True):
@@ -143,6 +146,19 @@ def infeasible_items(tier):
                     w["skills"][vn] = -0.5
             for mt in (0, 1, 5, 12):
                 out.append((sp, {"rule": "TSLACK", "max_time": mt}))
+    # the only skilled, team-assigned worker works solo and is shut out by the fixed-ID list (which names nobody / a colleague without the skill);
+    # a facility task whose only skilled worker works solo and has no licence for the machine
+    for fx in (["nobody"], ["W1"], []):
+        sp = {"tasks": [{"name": "T0", "work": 2.0, "fixw": fx}, {"name": "T1", "work": 1.0}], "links": [],
+              "teams": [{"name": "TM0", "targets": [0, 1], "workers": [{"name": "W0", "skills": {"T0": 1.0, "T1": 1.0}, "solo": True, "cost": 1.0}, {"name": "W1", "skills": {"T1": 1.0}, "cost": 1.0}]}]}
+        for mt in (5, 12):
+            out.append((sp, {"rule": "TSLACK", "max_time": mt}))
+    for fsk in ({}, {"F0": 0.0}, {"F1": 1.0}):
+        sp = {"tasks": [{"name": "T0", "work": 2.0, "nf": True}, {"name": "T1", "work": 1.0}], "links": [], "components": [{"name": "C0", "tasks": [0]}],
+              "workplaces": [{"name": "WP0", "cap": 1.0, "targets": [0], "facilities": [{"name": "F0", "skills": {"T0": 1.0}}]}],
+              "teams": [{"name": "TM0", "targets": [0, 1], "workers": [{"name": "W0", "skills": {"T0": 1.0, "T1": 1.0}, "fskills": dict(fsk), "solo": True, "cost": 1.0}]}]}
+        for mt in (5, 12):
+            out.append((sp, {"rule": "TSLACK", "max_time": mt}))
     # workers built without the skill keyword and filled in place: the unskilled one must not inherit anything
     for links in ([], [[0, 1, "FS"]]):
         sp = {"tasks": [{"name": "T0", "work": 1.0}, {"name": "T1", "work": 1.0}], "links": links,
